@@ -462,6 +462,11 @@ func (g *valGen) val(d *Desc, budget int) Val {
 			}
 		}
 		inner := g.val(dyn, budget-2)
+		if g.vc.AnyCanonical && inner.Nil && (dyn.K == "slice" || dyn.K == "map") {
+			// A nil []any / map[string]any held in an interface is not a
+			// canonical untyped value (Unmarshal never produces one): empty instead.
+			inner.Nil = false
+		}
 		if dyn.K == "float64" && g.vc.AnyCanonical {
 			f := math.Float64frombits(inner.U)
 			if math.IsNaN(f) || math.IsInf(f, 0) {
